@@ -181,10 +181,18 @@ structure FCCITT where
 def maxDimV : Int := Gen.filter_FilterCCITTFax_validate_maxDim
 def maxDimP : Int := Gen.filter_parseCCITTFax_maxDim
 
+/-- `toParams`: Columns 0 → 1728 -/
+def FCCITT.cols (f : FCCITT) : Int := if f.columns = 0 then 1728 else f.columns
+
+/-- `ccittMaxRows(columns) = max(1, min(MaxImageHeight, MaxImagePixels/max(columns,1)))`: the
+largest number of rows `validate`, `Encode`, `parseCCITTFax` and `Decode` admit for a width -/
+def geoMax (cols : Int) : Int :=
+  max 1 (min (Gen.limits_MaxImageHeight : Int) (Int.tdiv (Gen.limits_MaxImagePixels : Int) (max cols 1)))
+
 /-- `FilterCCITTFax.validate` -/
 def FCCITT.validate (f : FCCITT) : Bool :=
   if f.columns < 0 ∨ f.columns > maxDimV then false
-  else if f.rows < 0 ∨ f.rows > maxDimV then false
+  else if f.rows < 0 ∨ f.rows > geoMax f.cols then false
   else if f.damaged < 0 ∨ f.damaged > maxDimV then false
   else true
 
@@ -223,23 +231,19 @@ def parseIgnoreEOB (d : Dict) : Bool :=
 
 /-- `parseCCITTFax` -/
 def parseCCITTFax (d : Dict) : FCCITT :=
-  ⟨parseK d, parseFlag d kEndOfLine, parseFlag d kEncodedByteAlign, parseDim d kColumns 1728, parseDim d kRows 0,
+  ⟨parseK d, parseFlag d kEndOfLine, parseFlag d kEncodedByteAlign, parseDim d kColumns 1728,
+   min (parseDim d kRows 0) (geoMax (parseDim d kColumns 1728)),   -- `min(int(val), ccittMaxRows(res.Columns))`
    parseIgnoreEOB d, parseFlag d kBlackIs1, parseDim d kDamaged 0⟩
 
-/-- `toParams` (Columns 0 → 1728) and, for decoding, the geometry clamp of `Decode`:
-`cols = max(Columns,1)`, `geoMax = max(1, min(MaxImageHeight, MaxImagePixels/cols))`,
-`MaxRows` replaced by `geoMax` when it is `<= 0` or larger. -/
-def FCCITT.cols (f : FCCITT) : Int := if f.columns = 0 then 1728 else f.columns
-
-def geoMax (cols : Int) : Int :=
-  max 1 (min (Gen.limits_MaxImageHeight : Int) (Int.tdiv (Gen.limits_MaxImagePixels : Int) (max cols 1)))
-
+/-- the row clamp shared by `Encode` and `Decode`: `MaxRows` replaced by
+`ccittMaxRows(Columns)` when it is `<= 0` or larger -/
 def FCCITT.decodeMaxRows (f : FCCITT) : Int :=
   let g := geoMax f.cols
   if f.rows ≤ 0 ∨ f.rows > g then g else f.rows
 
+/-- the parameters `Encode` hands to the writer: never more rows than `Decode` reads back -/
 def FCCITT.encParams (f : FCCITT) : CParams :=
-  { columns := f.cols.toNat, k := f.k, maxRows := f.rows.toNat, endOfLine := f.endOfLine,
+  { columns := f.cols.toNat, k := f.k, maxRows := f.decodeMaxRows.toNat, endOfLine := f.endOfLine,
     byteAlign := f.byteAlign, blackIs1 := f.blackIs1, ignoreEOB := f.ignoreEOB }
 
 def FCCITT.decParams (f : FCCITT) : CParams :=
